@@ -8,8 +8,12 @@ package main
 import (
 	"context"
 	"database/sql"
+	"encoding/json"
 	"errors"
 	"fmt"
+	"github.com/0xPolygon/cdk-contracts-tooling/contracts/pp/l2-sovereign-chain/polygonzkevmbridgev2"
+	aggkittypes "github.com/agglayer/aggkit/types"
+	"github.com/ethereum/go-ethereum"
 	"math/big"
 	"os"
 	"path/filepath"
@@ -361,10 +365,17 @@ func (w *bsWorld) exec(r *Run, line string) string {
 		bn := bigOf(ws[1]).Uint64()
 		blk := sync.Block{Num: bn, Hash: common.BigToHash(new(big.Int).SetUint64(bn*7919 + 13))}
 		hasRm := false
-		for _, tok := range ws[3:] {
-			blk.Events = append(blk.Events, bsParseEv(bn, tok))
-			if strings.HasPrefix(tok, "r;") {
-				hasRm = true
+		if evs, ok := bsEventsViaLogs(bn, ws[3:]); ok {
+			// bridge events as the syncer gets them: ABI-encoded logs through the downloader's own log handlers, the
+			// sender and calldata from the transaction trace
+			blk.Events = evs
+			r.Count("branch:events-decoded-from-logs")
+		} else {
+			for _, tok := range ws[3:] {
+				blk.Events = append(blk.Events, bsParseEv(bn, tok))
+				if strings.HasPrefix(tok, "r;") {
+					hasRm = true
+				}
 			}
 		}
 		if ws[2] != "-" {
@@ -588,3 +599,82 @@ func bsReplay(r *Run, lines []string) {
 }
 
 var _ = sort.Strings
+
+// ---- bridge events as ABI-encoded logs, decoded by the real log handlers (bridgesync/downloader.go) ----
+
+var bsGasToken = common.HexToAddress("0x00000000000000000000000000000000000064a5")
+var bsBridgeAddr = common.HexToAddress("0x0000000000000000000000000000000000b41d6e")
+
+type bsEthClient struct {
+	aggkittypes.BaseEthereumClienter
+	traces map[common.Hash]string // tx hash -> call trace (JSON)
+}
+
+func (c *bsEthClient) CodeAt(ctx context.Context, a common.Address, b *big.Int) ([]byte, error) {
+	return []byte{1}, nil
+}
+func (c *bsEthClient) CallContract(ctx context.Context, m ethereum.CallMsg, b *big.Int) ([]byte, error) {
+	out := make([]byte, 32) // gasTokenAddress()
+	copy(out[12:], bsGasToken[:])
+	return out, nil
+}
+func (c *bsEthClient) Call(result any, method string, args ...any) error {
+	h, ok := args[0].(common.Hash)
+	if !ok {
+		return errors.New("verif: unexpected trace argument")
+	}
+	t, ok := c.traces[h]
+	if !ok {
+		return errors.New("verif: unknown transaction")
+	}
+	return json.Unmarshal([]byte(t), result)
+}
+
+var bsLogClient = &bsEthClient{traces: map[common.Hash]string{}}
+var bsAppender sync.LogAppenderMap
+
+// possible when the block holds bridge events only, all with the block's timestamp, and the native-token flag is what the
+// handler derives (origin address zero or the gas token)
+func bsEventsViaLogs(bn uint64, toks []string) ([]interface{}, bool) {
+	if len(toks) == 0 {
+		return nil, false
+	}
+	var ts uint64
+	for i, tok := range toks {
+		f := strings.Split(tok, ";")
+		if f[0] != "b" {
+			return nil, false
+		}
+		t := bigOf(f[10]).Uint64()
+		if i > 0 && t != ts {
+			return nil, false
+		}
+		ts = t
+		oa := common.BytesToAddress(unhx(f[5]))
+		if (f[14] == "1") != (oa == (common.Address{}) || oa == bsGasToken) {
+			return nil, false
+		}
+	}
+	if bsAppender == nil {
+		var err error
+		bsAppender, err = bridgesync.VerifBuildAppender(bsLogClient, bsBridgeAddr, false, lg())
+		must(err)
+	}
+	a, err := polygonzkevmbridgev2.Polygonzkevmbridgev2MetaData.GetAbi()
+	must(err)
+	b := &sync.EVMBlock{EVMBlockHeader: sync.EVMBlockHeader{Num: bn, Timestamp: ts}}
+	u := func(s string) uint64 { return bigOf(s).Uint64() }
+	for _, tok := range toks {
+		f := strings.Split(tok, ";")
+		l := liMkLog(a, "BridgeEvent", uint(u(f[1])), uint8(u(f[3])), uint32(u(f[4])), common.BytesToAddress(unhx(f[5])), uint32(u(f[6])),
+			common.BytesToAddress(unhx(f[7])), bigOf(f[8]), unhx(f[9]), uint32(u(f[2])))
+		l.TxHash = common.BytesToHash(unhx(f[11]))
+		l.Address = bsBridgeAddr
+		// the transaction: an outer call from the sender to some contract which calls the bridge with the calldata
+		bsLogClient.traces[l.TxHash] = fmt.Sprintf(`{"from":"%s","to":"%s","input":"0x%s","calls":[]}`,
+			common.BytesToAddress(unhx(f[12])).Hex(), bsBridgeAddr.Hex(), strings.TrimPrefix(hx(unhx(f[13])), "-"))
+		must(bsAppender[l.Topics[0]](b, l))
+		delete(bsLogClient.traces, l.TxHash)
+	}
+	return b.Events, true
+}
